@@ -336,7 +336,7 @@ func TestC06(t *testing.T) {
 			}
 		}
 	}
-	rec.SetExtra("rule", "layer table: every unary operator x pool value and every binary operator x pool x pool over a boundary pool (size reported as table_pool_size: 64-bit boundary integers, plain / regex-special / invalid-pattern strings, dates, byte arrays, booleans, the empty set, small sets and 8- and 9-element sets of every element type), enumerated completely; layer tree: rapid type-correct expression trees (depth<=5) over typed environments with 64-bit boundary integers; layer seq: raw operator sequences (ill-typed, underflow, leftovers, 990-1010 pushes, unbound variables). Non-trivial = the reference result is a value, an arithmetic/regex/stack error (not a mere type error), or an operand is within 2 of MinInt64/MaxInt64; distinct = distinct (postfix sequence, environment) encoding.")
+	rec.SetExtra("rule", "layer table: every unary operator x pool value and every binary operator x pool x pool over a boundary pool (size reported as table_pool_size: 64-bit boundary integers, plain / regex-special / invalid-pattern strings, dates, byte arrays, booleans, the empty set, small sets and 8- and 9-element sets of every element type), enumerated completely; layer tree: rapid type-correct expression trees (depth<=5) over typed environments with 64-bit boundary integers; layer seq: raw operator sequences (ill-typed, underflow, leftovers, 990-1010 pushes, unbound variables). Besides agreement with the big-integer reference, every evaluation must leave its operands and its variable bindings unchanged and give the same result when repeated. Non-trivial = the reference result is a value, an arithmetic/regex/stack error (not a mere type error), or an operand is within 2 of MinInt64/MaxInt64; distinct = distinct (postfix sequence, environment) encoding.")
 	rec.SetExtra("assumptions", []string{"Go regexp is the trusted primitive for matches (used by both sides)", "length of strings is compared on ASCII inputs only; union/intersection of sets with different element types: totality only", "division truncates toward zero"})
 	if replayOrNoTable() || os.Getenv("VERIF_SKIP_DETERMINISTIC") != "" {
 		harness.RunWith(t, spec, rec)
